@@ -84,7 +84,7 @@ func (f *Frame) doCall(instr ssa.Instruction, cc *ssa.CallCommon, st *State, rt 
 		if v.S != "" {
 			e.check(f, st, "no-panic.nilfunc", "call of nil function value", sNot(sEq(v.S, "func.nil")), pos)
 		}
-		name := cc.Value.Name()
+		name := funcValueName(cc.Value)
 		if r, ok := e.funcValueCall(f, st, cc, v, args, rt, pos); ok {
 			return r
 		}
@@ -165,8 +165,41 @@ func (e *Engine) ifaceContractByType(recvT types.Type, mname string) *Contract {
 }
 
 // funcValueCall handles calls through function-typed parameters declared in the contract (pure / called-once ghosts).
+// funcValueName: a stable name for a call through a function value (parameter, captured variable, package variable).
+func funcValueName(v ssa.Value) string {
+	switch x := v.(type) {
+	case *ssa.Parameter:
+		return x.Name()
+	case *ssa.FreeVar:
+		return x.Name()
+	case *ssa.UnOp:
+		if g, ok := x.X.(*ssa.Global); ok {
+			return g.Name()
+		}
+		if fv, ok := x.X.(*ssa.FreeVar); ok {
+			return fv.Name()
+		}
+		if fa, ok := x.X.(*ssa.FieldAddr); ok {
+			st := fa.X.Type().Underlying().(*types.Pointer).Elem().Underlying().(*types.Struct)
+			return st.Field(fa.Field).Name()
+		}
+		if a, ok := x.X.(*ssa.Alloc); ok && a.Comment != "" {
+			return a.Comment
+		}
+	case *ssa.Field:
+		if st, ok := x.X.Type().Underlying().(*types.Struct); ok {
+			return st.Field(x.Field).Name()
+		}
+	case *ssa.Phi:
+		if x.Comment != "" {
+			return x.Comment
+		}
+	}
+	return "funcvalue"
+}
+
 func (e *Engine) funcValueCall(f *Frame, st *State, cc *ssa.CallCommon, fv Val, args []Val, rt types.Type, pos token.Pos) (Val, bool) {
-	e.siteCall(f, st, cc.Value.Name(), args, pos)
+	e.siteCall(f, st, funcValueName(cc.Value), args, pos)
 	// an unknown function may write through its pointer arguments: those objects become arbitrary
 	for _, a := range args {
 		if a.T == nil {
@@ -493,9 +526,16 @@ func (e *Engine) pureApply(c *Contract, i int, t types.Type, args []Val) (Val, b
 	return Val{T: t, S: e.define("pa", e.sortOf(t), "("+name+" "+strings.Join(terms, " ")+")")}, true
 }
 
+// pkgShort: unambiguous display name of a repository package (path relative to the otel root, exporter family prefix dropped).
 func pkgShort(p string) string {
-	if i := strings.LastIndex(p, "/"); i >= 0 {
-		return p[i+1:]
+	if p == "go.opentelemetry.io/otel" {
+		return "otel"
+	}
+	p = strings.TrimPrefix(p, "go.opentelemetry.io/otel/")
+	for _, pre := range []string{"exporters/otlp/otlptrace/", "exporters/otlp/otlpmetric/", "exporters/otlp/otlplog/", "exporters/otlp/", "exporters/"} {
+		if strings.HasPrefix(p, pre) {
+			return strings.TrimPrefix(p, pre)
+		}
 	}
 	return p
 }
